@@ -1,2 +1,21 @@
 import FpgoVerif.Props.C13
 /-! `#print axioms` for every property theorem of C13; parsed by `check`. -/
+#print axioms FpgoVerif.C13.C13_no_panic
+#print axioms FpgoVerif.C13.C13_correlation
+#print axioms FpgoVerif.C13.C13_in_transit
+#print axioms FpgoVerif.C13.C13_timeout_clean
+#print axioms FpgoVerif.C13.C13_late_reply_discarded
+#print axioms FpgoVerif.C13.C13_reply_never_stuck
+#print axioms FpgoVerif.C13.C13_actor_keeps_serving
+#print axioms FpgoVerif.C13.C13_pinned_code_panics
+#print axioms FpgoVerif.C13.C13_skel_AskOnce
+#print axioms FpgoVerif.C13.C13_skel_AskOnceWithTimeout
+#print axioms FpgoVerif.C13.C13_skel_AskChannel
+#print axioms FpgoVerif.C13.C13_skel_Reply
+#print axioms FpgoVerif.C13.C13_skel_New
+#print axioms FpgoVerif.C13.C13_skel_NewByOptions
+#print axioms FpgoVerif.C13.C13_skel_AskNewGenerics
+#print axioms FpgoVerif.C13.C13_skel_AskNewByOptionsGenerics
+#print axioms FpgoVerif.C13.C13_skel_Send
+#print axioms FpgoVerif.C13.C13_fact_closes
+#print axioms FpgoVerif.C13.C13_fact_selects
